@@ -16,6 +16,21 @@ def driver_path():
     return ref if os.path.exists(ref) else None
 
 
+def gen_skeletons(work, pid, specs):
+    """run harness/skel on the scratch copy; returns an error string or None"""
+    binp, blog = work.build("skel")
+    if binp is None:
+        return "skeleton extractor does not build: " + blog
+    out = os.path.join(core.LEAN, "Ekit", "Generated", "Skel%s.lean" % pid)
+    tmp = os.path.join(work.dir, "Skel%s.lean" % pid)
+    rc, log = core.sh([binp, "-root", work.repo, "-out", tmp, "-ns", "Ekit.Gen.Skel" + pid] + list(specs),
+                      env=core.GOENV, timeout=120)
+    if rc != 0:
+        return "skeleton extractor failed: " + log
+    core.write_if_changed(out, open(tmp).read())
+    return None
+
+
 def lean_obligations(res, pid, extra_targets=()):
     """lake build of the property module + axiom audit + forbidden-token grep.
     Returns True iff every proof obligation of `pid` is discharged."""
